@@ -201,9 +201,13 @@ def _verdict(sc, loop, facts, want, missing_msg):
 def t_fold(sc, loop):
     """while V > C: V = (V & M) + (V >> K)   -- end-around carry"""
     t = sc.subst(loop.test)
-    if not (isinstance(t, ast.Compare) and len(t.ops) == 1 and isinstance(t.left, ast.Name) and isinstance(t.ops[0], (ast.Gt, ast.GtE)) and _const(t.comparators[0]) is not None):
+    inverted = False
+    if isinstance(t, ast.UnaryOp) and isinstance(t.op, ast.Not):
+        t, inverted = t.operand, True
+    if not (isinstance(t, ast.Compare) and len(t.ops) == 1 and isinstance(t.left, ast.Name) and isinstance(t.ops[0], (ast.Gt, ast.GtE, ast.Lt, ast.LtE)) and _const(t.comparators[0]) is not None):
         return None
     v, c = t.left.id, _const(t.comparators[0])
+    runs_for_large = isinstance(t.ops[0], (ast.Gt, ast.GtE)) != inverted
     last = loop.body[-1]
     if not isinstance(last, ast.Assign) or norm_text(last.targets[0]) != v:
         return None
@@ -228,6 +232,9 @@ def t_fold(sc, loop):
                 shift = d.bit_length() - 1 if d > 0 and d & (d - 1) == 0 else None
     if mask is None or shift is None:
         return None
+    if not runs_for_large:
+        return {"template": "end-around-carry fold", "variant": "-", "problems": [f"the guard lets the body run for SMALL sums ({norm_text(loop.test)}): there V >> {shift} is 0, the body changes nothing and the loop never ends; "
+                                                                              "sums that do need folding leave the loop unfolded"]}
     lowest = c + 1 if isinstance(t.ops[0], ast.Gt) else c       # smallest V for which the body runs
     problems = []
     if shift <= 0 or mask != (1 << shift) - 1:
